@@ -5,6 +5,8 @@
     is compared with the model; in every reached state every row kind is also offered with one surplus cell (must raise).
 (b) unmerged enumeration of ALL operator sequences up to a depth (every spine-operator layout), whole tree re-verified.
 (c) literal cells: quotes, commas, spaces, non-ASCII in every column position; line count == stage count.
+(d) kv/tlcspine.py: the rules once more as a TLA+ model (tla/SpinePaths.tla); TLC explores it to closure and checks the model's
+    invariants, and every edge of the dumped state graph is replayed against kernpy (and against kv/model.py).
 """
 import kernpy as kp
 
@@ -337,7 +339,7 @@ def run(ctx):
     seed = ctx.seed
     quick = ctx.quick
     ctx.rule = ('(a) BFS to closure over merged (layout, implementation fingerprint) states, every transition replayed by importing the history; '
-                '(b) every operator sequence up to the depth bound, unmerged; (c) literal cells x column x position; '
+                '(b) every operator sequence up to the depth bound, unmerged; (c) literal cells x column x position; (d) every edge of the TLC state graph of tla/SpinePaths.tla replayed with a witness history; '
                 'non-trivial = history containing a spine operator / literal needing no interpretation')
     if quick:
         lock = [(['**kern'], 4, True), (['**kern', '**text'], 5, False), (['**text', '**kern', '**kern'], 5, False)]
@@ -377,6 +379,11 @@ def run(ctx):
     hdr_lit = [['**text'], ['**kern', '**text'], ['**dynam', '**kern', '**harm'], ['**fing', '**mxhm'], ['**kern', '**dyn']]
     jobs = [(h, i, i + 1, seed) for h in hdr_lit for i in range(len(LITERAL))]
     ctx.pmap(_literal_job, jobs, chunksize=2)
+    # (d) the TLA+ statement of the spine-path rules, explored by TLC; every edge of its state graph replayed against kernpy
+    from .. import tlcspine
+    tl = [(['**kern'], 4), (['**kern', '**text'], 3)] if quick else [(['**kern'], 5), (['**kern', '**text'], 4), (['**text', '**kern', '**kern'], 4)]
+    ctx.bounds['tlc_model'] = [{'headers': h, 'column_cap': c, 'rows': 'every assignment of * / *^ / *v / *- to the columns that obeys the join rule, plus plain rows'} for h, c in tl]
+    tlcspine.run_pass(ctx, tl)
     ctx.sample({'lock-step transition': 'state [0,0,1] --join0-1--> [0,1]', 'headers': ['**kern', '**text']})
     ctx.sample({'text': X.seq_model(['**kern', '**text'], ['d', 'S0', 'd', 'J0', 'b'], seed).text()})
     ctx.count('traces', ctx.n.get('evaluations', 0))
@@ -385,6 +392,9 @@ def run(ctx):
 def replay(case):
     acc = Acc()
     text = case['text']
+    if 'tlc' in case:
+        from .. import tlcspine
+        return tlcspine.replay(case)
     if 'surplus' in case:
         try:
             loads(text)
